@@ -131,6 +131,8 @@ class Corrupt(Machine):
                     count = 6  # the un-seamed inspect population only shows that the seam hides nothing; keep it short
                 elif fam == "growth":
                     count = s.choice([6, 12]) if tier == "quick" else s.choice([20, 40])  # large inputs: fewer of them
+                elif fam == "truncate" and s.chance(0.5):
+                    count = None  # every truncation point of this envelope, also in the quick tier (a torn write can stop anywhere)
                 else:
                     count = s.choice([20, 40, 80]) if tier == "quick" else s.choice([100, 300, 600])
                 ops.append({"kind": "sweep", "i": len(ops), "env": f"env{e}", "family": fam, "count": count,
